@@ -130,6 +130,11 @@ def match_finding(findings: list, prop: str, sig: dict):
                     ok = False
                     break
                 continue
+            if k == 'value_features_none':
+                if set(want) & set(sig.get('value_features') or []):
+                    ok = False
+                    break
+                continue
             if k == 'shape_prefix':
                 if not str(sig.get('shape', '')).startswith(want):
                     ok = False
